@@ -145,8 +145,16 @@ static int parseRange(const char *from, MPT_STRUCT(range) *r)
 extern MPT_INTERFACE(metatype) *mpt_iterator_linear(uint32_t len, double start, double end)
 {
 	MPT_STRUCT(iteratorLinear) *data;
+	double diff = end - start;
 	if (len < 2) {
 		errno = EINVAL;
+		return 0;
+	}
+	/* distance of finite bounds exceeds the value range, elements would be inf/NaN */
+	if ((diff > DBL_MAX || diff < -DBL_MAX)
+	    && start >= -DBL_MAX && start <= DBL_MAX
+	    && end >= -DBL_MAX && end <= DBL_MAX) {
+		errno = ERANGE;
 		return 0;
 	}
 	if (!(data = malloc(sizeof(*data)))) {
